@@ -151,3 +151,50 @@ Definition stamp_label (G:graph) (purge:bool) (t:ltarget) (rws:list N) : res (li
   | Err e => Err e
   | Ok (groups, dests) => stamp_cmd G purge groups dests rws
   end.
+
+(* ---------- partial revision ids as stamp targets ----------
+   RevisionMap._revision_for_ident(resolved_id): an exact key of _revision_map, else the keys longer than 3 characters
+   that start with the given string — exactly one, otherwise ResolutionError (-> CommandError).  `keys` is
+   _revision_map as (key string, revision) pairs in the map's order (revision ids and branch labels; strings are
+   lists of code points).  _stamp_revs resolves every element of the tuple twice (filter_for_lineage -> _shares_lineage,
+   and get_revisions), both through this function. *)
+Definition str := list N.
+Definition streqb (a b:str) : bool := list_eqb N.eqb a b.
+Fixpoint startswith (k p:str) {struct p} : bool :=
+  match p, k with
+  | [], _ => true
+  | c :: p', d :: k' => N.eqb c d && startswith k' p'
+  | _ :: _, [] => false
+  end.
+Definition resolve_partial (keys:list (str * N)) (s:str) : res N :=
+  match find (fun k => streqb (fst k) s) keys with
+  | Some k => Ok (snd k)
+  | None =>
+    match s with
+    | [] => Err EAssert                                                    (* assert resolved_id *)
+    | _ => match filter (fun k => Nat.ltb 3 (length (fst k)) && startswith (fst k) s) keys with
+           | [k] => Ok (snd k)
+           | _ => Err ECommand                                             (* no such revision / multiple revisions start with *)
+           end
+    end
+  end.
+Fixpoint resolve_partials (keys:list (str * N)) (l:list str) : res (list N) :=
+  match l with
+  | [] => Ok []
+  | s :: r => bind (resolve_partial keys s) (fun x => bind (resolve_partials keys r) (fun xs => Ok (x :: xs)))
+  end.
+Definition stamp_partial (G:graph) (purge:bool) (keys:list (str * N)) (targets:list str) (rws:list N) : res (list N) :=
+  match resolve_partials keys targets with
+  | Err e => Err e
+  | Ok ts => stamp_cmd G purge (map (fun x => [x]) ts) (Some ts) rws
+  end.
+
+(* ---------- several databases in one run (the multidb template: configure + run_migrations per engine inside one
+   EnvironmentContext, one transaction per engine, all committed at the end) ----------
+   every database gets the same command with the same options, independently; an exception on any of them aborts the
+   command (and rolls every database back) *)
+Fixpoint stamp_multi (G:graph) (purge:bool) (groups:list (list N)) (dests:option (list N)) (dbs:list (list N)) : res (list (list N)) :=
+  match dbs with
+  | [] => Ok []
+  | rws :: r => bind (stamp_cmd G purge groups dests rws) (fun a => bind (stamp_multi G purge groups dests r) (fun b => Ok (a :: b)))
+  end.
